@@ -335,6 +335,14 @@ def ufunc_functional_factory(name, nargin, nargout, docstring):
         else:
             return getattr(np, name)(*x)
 
+    def derivative(self, point):
+        """Return the derivative operator in ``point``.
+
+        On a field, the gradient in ``point`` is a number ``g``, and the
+        derivative is the linear functional ``x --> g * x``.
+        """
+        return ScalingFunctional(self.domain, self.gradient(point))
+
     def __repr__(self):
         """Return ``repr(self)``."""
         return '{}({!r})'.format(name, self.domain)
@@ -360,6 +368,7 @@ def ufunc_functional_factory(name, nargin, nargout, docstring):
     attributes = {"__init__": __init__,
                   "_call": _call,
                   "gradient": property(gradient_factory(name)),
+                  "derivative": derivative,
                   "__repr__": __repr__,
                   "__doc__": full_docstring}
 
